@@ -309,7 +309,7 @@ def term_part(prop, tier, seed):
 
 
 CORE_CFGS = {   # property -> (quick configs, thorough configs) of MPBCore.tla
-    "C01": (["q0", "rm", "sync2q0"], ["q0", "rm", "drop", "queue", "pop", "write", "sync2", "mixed2", "shut", "sync2q0", "three"]),
+    "C01": (["q0", "rm", "manual", "sync2q0"], ["q0", "rm", "drop", "queue", "pop", "write", "sync2", "mixed2", "shut", "manual", "manualsync", "none", "fault1", "prio", "sync2q0", "three"]),
     "C02": (["q0", "sync2q0"], ["q0", "shut", "two", "sync2q0", "sync2q1"]),
     "C03": (["write", "rm"], ["write", "rm", "drop", "two"]),
     "C05": (["rm", "queue"], ["rm", "drop", "queue", "pop", "mixed2", "sync2q0"]),
@@ -317,7 +317,7 @@ CORE_CFGS = {   # property -> (quick configs, thorough configs) of MPBCore.tla
     "C15": (["fault1", "faultsync"], ["fault1", "fault2", "faultsync"]),
     "C12": (["drop", "mixed2"], ["sync2", "mixed2", "drop", "three", "pop3"]),
     "C13": (["write"], ["write", "two"]),
-    "C14": (["q0"], ["shut"]),
+    "C14": (["none", "manual"], ["shut", "none", "manual", "manualsync"]),
     "C16": (["q0", "rm", "faultsync"], ["q0", "rm", "drop", "queue", "pop", "write", "shut", "sync2", "fault1", "faultsync"]),
     "C17": (["queue"], ["queue"]),
     "C18": (["pop"], ["pop", "pop3"]),
